@@ -991,7 +991,7 @@ func writeBracketRule(c *eng.Ctx) {
 			"AcquireWrite happens while the family mutex is held - the hold that read f.mutableMemDB - so a flush either sees the open bracket or the writer sees the new memory database", "held at AcquireWrite: "+held.String())
 	}
 	okDef := false
-	for _, cl := range w.AnonFuncs {
+	for _, cl := range localFuncs(w) { // the deferred function literal, or a named unexported function that is deferred
 		if p.MustPass(cl, invokeOn("", "CompleteWrite"), 0) {
 			okDef = true
 		}
